@@ -11,17 +11,18 @@ CONFIGS_QUICK = ["A"]
 CONFIGS_THOROUGH = ["A", "R"]
 TECHNIQUE = "vocabulary tables read from the compiled constants and from the derive(Serialize) output (the keys serde really writes) vs the OpenAPI 3.1 / JSON Schema 2020-12 fixed fields; sibling-family rule over IntoHandler impls; exhaustiveness over authentication fangs"
 LEVEL_TEXT = ('Decides clauses C15-a..f: every SchemaType::NAME is a JSON Schema 2020-12 type name (or empty = any); the keys each OpenAPI object actually serializes'
-              ' (read from the derive output, renames applied) are fixed fields of that object in OpenAPI 3.1, required fields are written unconditionally, and '
-              'keywords the meta-schema types as number/boolean/string/array carry a Rust type of that kind; ParameterKind is within {path,query,header,cookie}; '
-              'Operations::register accepts exactly the lower-case Path Item methods gen_openapi_doc produces; path parameters are required; each IntoHandler impl '
-              "documents exactly its p path parameters and q request items, in signature order, on top of the body's responses; gen_openapi_doc names the path "
-              'parameters from the route template in order and registers every referenced schema and security scheme component; every builtin fang that can answer '
-              '401 overrides openapi_map_operation with a security requirement; the route table the document is generated from only ever accumulates (registering or '
-              'mounting onto an existing route extends its method map, never replaces it); the builder methods whose calls C15-b counts (Operation::param, '
-              'Schema::property/optional, Paths::at) add their element unconditionally on every call; RawSchema::into_properties flags a property as required by '
-              'membership of its name in the whole `required` list; the router the document is generated from is the result of Ohkami::into_router on this '
-              "application's router and fangs (the step in which the top-level fangs map their security requirements and tags into the operations, and which the "
-              'served application takes too). Decides these clauses, not document <=> application for all applications.')
+              ' (read from the derive output, renames applied) are fixed fields of that object in OpenAPI 3.1, required fields are written unconditionally, and keywo'
+              'rds the meta-schema types as number/boolean/string/array carry a Rust type of that kind; ParameterKind is within {path,query,header,cookie}; Operation'
+              's::register accepts exactly the lower-case Path Item methods gen_openapi_doc produces; path parameters are required; each IntoHandler impl documents e'
+              "xactly its p path parameters and q request items, in signature order, on top of the body's responses; gen_openapi_doc names the path parameters from t"
+              'he route template in order and registers every referenced schema and security scheme component; every builtin fang that can answer 401 overrides opena'
+              'pi_map_operation with a security requirement; the route table the document is generated from only ever accumulates (registering or mounting onto an ex'
+              'isting route extends its method map, never replaces it); the builder methods whose calls C15-b counts (Operation::param, Schema::property/optional, Pa'
+              'ths::at) add their element unconditionally on every call; RawSchema::into_properties flags a property as required by membership of its name in the who'
+              "le `required` list; the router the document is generated from is the result of Ohkami::into_router on this application's router and fangs (the step in"
+              ' which the top-level fangs map their security requirements and tags into the operations, and which the served application takes too). The names of a r'
+              "oute's path parameters reach assign_path_param_name in template order: through order-preserving collections only, neither sorted nor reversed (the han"
+              "dler's parameter schemas are assigned by position). Decides these clauses, not document <=> application for all applications.")
 
 JSON_SCHEMA_TYPES = {"string", "number", "integer", "boolean", "array", "object", "null", ""}
 FIXED = {
@@ -234,6 +235,41 @@ def c15b(ck, prog):
         loops = natural_loops(g)
         ok = ok and any(ap[0].bb in body for body in loops.values())
     ck.ob(R, "doc:path-param-names", ok, g.loc(None), "" if ok else "gen_openapi_doc does not assign each `:name` of the route template to the operation's path parameters in a loop", how="for name in template params: operation.assign_path_param_name(name)")
+    # ... in template order: the handler's path parameters are documented by position (schema k belongs to the k-th `:name`
+    # of the template), so the names must reach assign_path_param_name in the order the template lists them: the names are
+    # not kept in a collection ordered by key or hash, and are neither sorted nor reversed on the way
+    if len(ap) == 1:
+        chain, seen, op_ = [], set(), ap[0].args[1]
+        while op_ is not None and len(chain) < 12:
+            st = g.origin(op_)
+            if not st or st[-1][0] != "call" or st[-1][1].bb in seen:
+                break
+            cc = st[-1][1]
+            seen.add(cc.bb)
+            chain.append(cc)
+            op_ = cc.args[0] if cc.args else None
+        UNORDERED = r"collections::(btree|hash|binary_heap)|hashbrown|indexmap|adapters::rev::Rev|Iterator::rev$|::sort(_\w+)?$|::reverse$|::dedup"
+        bad = [cc for cc in chain if re.search(UNORDERED, cc.callee or "") or re.search(UNORDERED, " ".join(cc.targs))]
+        coll = chain[-1] if chain else None
+        if coll is not None and coll.args and coll.args[0][0] in ("c", "m"):
+            root = g.origin(coll.args[0])
+            rl = None
+            for stp in (root or []):
+                if stp[0] == "via" and stp[1][0] in ("ref", "use"):
+                    rl = stp[1][1][0]
+            for c2 in g.calls():
+                if re.search(r"::sort(_\w+)?$|::reverse$|::dedup(_\w+)?$|::swap(_remove)?$|::insert$|::push_front$", c2.callee or "") and c2.args:
+                    r2 = g.origin(c2.args[0])
+                    l2 = None
+                    for stp in (r2 or []):
+                        if stp[0] == "via" and stp[1][0] in ("ref", "use"):
+                            l2 = stp[1][1][0]
+                    if rl is not None and l2 == rl:
+                        bad.append(c2)
+        oko = bool(chain) and not bad
+        ck.ob(R, "doc:path-param-names:template-order", oko, g.loc(bad[0].sp) if bad else g.loc(ap[0].sp),
+              "" if oko else "the `:name`s of a route template reach assign_path_param_name through `%s`, which does not keep the order of the template: with two path parameters whose names are not in that order (`/teams/:team/members/:id`) each name is paired with the other parameter's schema" % (bad[0].callee if bad else "?"),
+              how="names flow through %s" % " <- ".join(c.name for c in chain))
     for prod, cons in (("refize_schemas", "register_schema_component"), ("iter_securitySchemes", "register_securityScheme_component")):
         pc = [c for c in g.calls() if c.name == prod]
         cc = [c for c in g.calls() if c.name == cons]
